@@ -84,8 +84,37 @@ def main():
             ok = P(r) == r and r == r.strip() and "  " not in r and r == spec_norm(s)
             if not ok and len(bad) < 12:
                 bad.append({"text": s, "real": r, "renormalised": P(r), "spec": spec_norm(s)})
+    # end to end: expressions under case changes and separator substitutions resolve alike
+    from datetime import datetime
+    from ctparse.time.corpus import corpus
+    step = 1 if tier == "thorough" else 3
+    extra = ["übermorgen", "am 5. märz", "nächsten montag", "fünf uhr", "zwölf uhr", "für zwei nächte", "frühestens 5 uhr", "spätestens morgen",
+             "dreißig tage", "samstag früh", "heute nachmittag um 15:30", "Jan 5th 2021 5pm - 6pm"]
+    pool = [(e, datetime(2018, 3, 7, 12, 43)) for e in extra]
+    for target, t, tests in corpus:
+        for e in tests[::step]:
+            pool.append((e, datetime.strptime(t, "%Y-%m-%dT%H:%M")))
+    nvar = 0
+    for e, ts in pool:
+        def val(x):
+            r = C.ctparse(x, ts=ts, timeout=0).resolution
+            return None if r is None else str(r)
+        base = val(e)
+        vs = {"upper": e.upper(), "lower": e.lower(), "title": e.title(), "comma": e.replace(" ", ", "), "tab": e.replace(" ", "\t"),
+              "brackets": "(" + e + ")", "semicolon": e.replace(" ", " ; "), "en-dash": e.replace("-", "\u2013"), "padded": "  " + e + " ,"}
+        for k, v in vs.items():
+            if v == e:
+                continue
+            cases += 1
+            nvar += 1
+            try:
+                got = val(v)
+            except Exception as ex:
+                got = "raises %r" % ex
+            if got != base and len(bad) < 12:
+                bad.append({"variant": k, "text": v, "ts": ts.isoformat(), "real": got, "spec": "as for %r: %s" % (e, base)})
     print(json.dumps({"cases": cases, "distinct": len(distinct) + 0x110000, "bad": bad, "version_skew": skew[:20], "n_skew": len(skew),
-                      "bound": "every code point U+0000..U+10FFFF as single separator between 'a' and 'b'; all strings of length <= %d over 7 class representatives (idempotence, trimming, run collapsing, equality with the stated normalisation)" % n}))
+                      "bound": "every code point U+0000..U+10FFFF as single separator between 'a' and 'b'; all strings of length <= %d over 7 class representatives (idempotence, trimming, run collapsing, equality with the stated normalisation); %d case / separator variants of %d corpus and vocabulary expressions through the real ctparse" % (n, nvar, len(pool))}))
 
 
 main()
